@@ -13,6 +13,7 @@ import random
 from scen import Scn
 import scenario_common as sc
 import mcrapid
+import c01
 import forced
 
 PHASES = ["ext-preregister", "ext-prenext", "rt-prenext", "rt-preresponse", "rt-prepoll", "ext-postevent"]
@@ -112,10 +113,16 @@ def run(ctx):
     # E1: the property predicates as invariants of the composite (spec/MC_Rapid.tla)
     mcrapid.check(ctx, ['NoGhostInvoke', 'NoCrash'])
     # forced schedules through the pause points of /repo (-tags verif)
-    sc.run_families(ctx, forced.scenarios('c05', ('ghost-invoke', 'clear-vs-invoke')), "forced-schedule")
+    sc.run_families(ctx, forced.scenarios('c05', ('ghost-invoke', 'clear-vs-invoke', 'stale-shutdown')), "forced-schedule")
     ctx.assumptions += sc.ASSUME + ["race sweep: offsets of the response relative to the expiry are sampled, not enumerated"]
     sc.run_families(ctx, scenarios(ctx), "stall")
     sc.run_families(ctx, race_scenarios(ctx), "race")
+    # timeouts seen through the HTTP front end: the caller gets the timeout answer only (also when the runtime had
+    # already answered but not polled again), within the bound, and the next request is served by a new environment
+    import random
+    rnd = random.Random(ctx.seed * 101 + 5)
+    hist = [["timeout"], ["answered-timeout"], ["answered-timeout", "timeout"]] + ([] if ctx.quick else [["ok", "answered-timeout", "error"], ["timeout", "timeout"], ["exit", "answered-timeout"]])
+    sc.run_families(ctx, [c01.one("c05-fe%02d" % i, rnd, h + ["ok"], False, fe=True) for i, h in enumerate(hist)], "frontend")
     ctx.coverage["exhaustive"] = False
 
 
